@@ -43,6 +43,8 @@ var pureExterns = map[string]bool{
 	"math.Log":        true, "math.Pow": true, "math.Log2": true,
 	"bytes.Compare": true, "bytes.HasPrefix": true,
 	"runtime.Gosched": true,
+	// sync.Pool: Get returns some value (callers type-assert it), Put hands the object to the pool
+	"(*sync.Pool).Put": true, "(*sync.Pool).Get": true,
 }
 
 // isErrCtor: functions that build error values. Returns the index of the
